@@ -794,6 +794,63 @@ theorem firstChunk_agree (r : Reply) (h : ToolCallsInFirstNonEmptyChunk r) :
       | nil => exact absurd hf hfull
       | cons y ys => simp [runChecker, chunkAct, firstChunkChecker, CheckCond.holds, hcc]
 
+/-! ## chunk metadata is not looked at -/
+
+theorem holds_bare (cond : CheckCond) (c : Chunk) : cond.holds c.bare = cond.holds c := by
+  cases cond <;> rfl
+
+theorem chunkAct_bare (rules : List (CheckCond × CheckAct)) (c : Chunk) :
+    chunkAct rules c.bare = chunkAct rules c := by
+  induction rules with
+  | nil => rfl
+  | cons ra rs ih =>
+    obtain ⟨cond, act⟩ := ra
+    simp only [chunkAct, holds_bare, ih]
+
+/-- any checker expressible as a rule table decides the same with and without metadata -/
+theorem runChecker_bare (s : CheckerSpec) (cs : List Chunk) :
+    runChecker s (cs.map Chunk.bare) = runChecker s cs := by
+  induction cs with
+  | nil => rfl
+  | cons c cs ih => simp only [List.map_cons, runChecker, chunkAct_bare, ih]
+
+theorem concat_bare (cs : List Chunk) : concat (cs.map Chunk.bare) = concat cs := by
+  simp [concat, Chunk.bare, List.flatMap_map, Function.comp_def]
+
+theorem full_bare (r : Reply) : r.bare.full = r.full := concat_bare r.chunks
+
+theorem goes_bare (F : Facts) (cfg : Config) (mode : Mode) (r : Reply) :
+    goes F cfg mode r.bare = goes F cfg mode r := by
+  cases mode with
+  | generate => simp only [goes, streamOf, full_bare]
+  | stream => exact runChecker_bare _ _
+
+/-- `rounds` only looks at the whole message of a reply and at the branch decision -/
+theorem rounds_map (cfg : Config) (dec : Reply → Bool) (f : Reply → Reply)
+    (hfull : ∀ r, (f r).full = r.full) (hdec : ∀ r, dec (f r) = dec r) :
+    ∀ (script : List Reply) (b : Nat) (h : List Msg),
+      rounds cfg dec (script.map f) b h = rounds cfg dec script b h := by
+  intro script
+  induction script with
+  | nil => intro b h; cases b <;> simp [rounds]
+  | cons r rest ih =>
+    intro b h
+    cases b with
+    | zero => simp [rounds]
+    | succ b =>
+      simp only [List.map_cons, rounds, hfull, hdec]
+      split
+      · cases b with
+        | zero => rfl
+        | succ b' =>
+          simp only
+          split
+          · rfl
+          · split
+            · rfl
+            · simp only [ih b' _]
+      · rfl
+
 /-! ## the tools node and direct_return, call by call -/
 
 /-- tool message produced for one call -/
